@@ -15,15 +15,19 @@ type CopyOnWriteMap[K, V any] struct {
 var _ fp.MapBase[string, int] = &CopyOnWriteMap[string, int]{}
 
 func (r *CopyOnWriteMap[K, V]) load() fp.UnsafeGoMap[K, V] {
+	verifYield("load")
 	m := r.value.Load()
 
 	if m == nil {
+		verifBeforeLock(&r.lock)
 		r.lock.Lock()
 		defer r.lock.Unlock()
 
+		verifYield("load")
 		m = r.value.Load()
 		if m == nil {
 			m = fp.UnsafeGoMap[K, V]{}
+			verifYield("store")
 			r.value.Store(m)
 		}
 	}
@@ -32,15 +36,18 @@ func (r *CopyOnWriteMap[K, V]) load() fp.UnsafeGoMap[K, V] {
 
 func (r *CopyOnWriteMap[K, V]) copyOnWrite(f func(om fp.UnsafeGoMap[K, V]) fp.UnsafeGoMap[K, V]) fp.UnsafeGoMap[K, V] {
 
+	verifBeforeLock(&r.lock)
 	r.lock.Lock()
 	defer r.lock.Unlock()
 
+	verifYield("load")
 	m := r.value.Load()
 	if m == nil {
 		m = fp.UnsafeGoMap[K, V]{}
 	}
 
 	nm := f(m.(fp.UnsafeGoMap[K, V]))
+	verifYield("store")
 	r.value.Store(nm)
 	return nm
 }
